@@ -374,6 +374,18 @@ fn pool(tier: Tier) -> Vec<Dec> {
     p
 }
 
+fn far_operands(tier: Tier) -> Vec<Dec> {
+    let mut far_pool: Vec<Dec> = vec![Dec::new(0, 0), Dec::new(1, 0), Dec::new(-725, 2), Dec::new(0, 9441), Dec::new(1, 9441), Dec::new(1, -9439)];
+    if tier.is_thorough() {
+        far_pool.extend([Dec::new(125, 1), Dec::new(7, 4096), Dec::new(-3, 10233), Dec::new(0, -20000)]);
+    }
+    far_pool
+}
+
+fn deep_operands() -> Vec<Dec> {
+    vec![Dec::new(1, 5), Dec { n: big("12345677654321"), s: 7 }, Dec::new(-3, 0)]
+}
+
 fn replay(m: &M, case: &Value) -> Vec<Violation> {
     // a recorded step: rebuild the accumulator and apply the named action without any explorer;
     // a recorded path: apply the listed actions one after another from the initial operand
@@ -402,7 +414,18 @@ fn main() {
     let (run, inv) = Run::start("C19");
     let tier = run.tier();
     if let Invocation::Replay(f) = &inv {
-        let m = M::new(pool(Tier::Thorough), 40);
+        // one model holding every operand of the three searches, so that any recorded action name resolves
+        let mut all: Vec<Dec> = pool(Tier::Thorough);
+        all.extend(far_operands(Tier::Thorough));
+        all.extend(deep_operands());
+        let mut uniq: Vec<Dec> = vec![];
+        for d in all {
+            if !uniq.contains(&d) {
+                uniq.push(d);
+            }
+        }
+        let mut m = M::new(uniq, 1_000_000);
+        m.max_scale = i64::MAX;
         run.replay(f, |c| replay(&m, c));
     }
     let m = M::new(pool(tier), 40);
@@ -424,10 +447,7 @@ fn main() {
     // far-scale operands: a second, small pool whose scale gaps lie far beyond the first pool's (on both sides of
     // 590*16 = 9440 where the power-of-ten helper recurses twice, at 4096, and beyond 10000), explored to depth 2
     // with the core alphabet; results are checked, observed and expanded whatever their size
-    let mut far_pool: Vec<Dec> = vec![Dec::new(0, 0), Dec::new(1, 0), Dec::new(-725, 2), Dec::new(0, 9441), Dec::new(1, 9441), Dec::new(1, -9439)];
-    if tier.is_thorough() {
-        far_pool.extend([Dec::new(125, 1), Dec::new(7, 4096), Dec::new(-3, 10233), Dec::new(0, -20000)]);
-    }
+    let far_pool: Vec<Dec> = far_operands(tier);
     let mut m2 = M::new(far_pool, 30_000);
     m2.max_scale = 40_000;
     let core2 = m2.core_actions();
@@ -438,7 +458,7 @@ fn main() {
     // deep, narrow programs: few actions, many steps - squaring doubles the scale at every step, so a short
     // alphabet reaches scale gaps of tens of thousands only through a HISTORY (1e-5 squared twelve times is
     // 1e-20480), which no single operand of the other searches carries; nothing is pruned below 45000 digits
-    let deep_pool: Vec<Dec> = vec![Dec::new(1, 5), Dec { n: big("12345677654321"), s: 7 }, Dec::new(-3, 0)];
+    let deep_pool: Vec<Dec> = deep_operands();
     let mut m3 = M::new(deep_pool, 45_000);
     m3.max_scale = 90_000;
     let deep_names = ["square", "V+V 12345677654321e-7", "R-R -3e0"];
